@@ -323,7 +323,9 @@ func TestC12(t *testing.T) {
 			t.Fatalf("C12 %s: %s", c, msg)
 		}
 		// a copy reweighted by 2^-1074 (some weights vanish, others become a few subnormal units): exact contents are not
-		// representable there, but iteration must still yield positive weights only, and no value twice
+		// representable there, but iteration must still yield positive weights only, and no value twice; what vanished
+		// is gone for every query alike: emptiness, the extremes and the extreme quantiles speak of the bins that
+		// iteration still yields (plain variant; the exact statistics legitimately remember the extremes)
 		if rapid.IntRange(0, 2).Draw(t, "underflowprobe") == 0 {
 			cp := u.s.Copy()
 			if err := cp.Reweight(0x1p-1074); err != nil {
@@ -340,6 +342,26 @@ func TestC12(t *testing.T) {
 				seen[v] = true
 				return false
 			})
+			if cp.IsEmpty() != (len(seen) == 0) {
+				t.Fatalf("C12 %s: after Reweight(2^-1074) IsEmpty()=%v but iteration yields %d bins (count %v)", c, cp.IsEmpty(), len(seen), cp.GetCount())
+			}
+			if !c.exact && len(seen) > 0 {
+				lo, hi := math.Inf(1), math.Inf(-1)
+				for v := range seen {
+					lo, hi = math.Min(lo, v), math.Max(hi, v)
+				}
+				mn, e1 := cp.GetMinValue()
+				mx, e2 := cp.GetMaxValue()
+				if e1 != nil || e2 != nil || mn != lo || mx != hi {
+					t.Fatalf("C12 %s: after Reweight(2^-1074) the bins that still hold weight span [%v,%v] but min/max are (%v,%v) (%v,%v)", c, lo, hi, mn, mx, e1, e2)
+				}
+				for _, q := range []float64{0, 0.5, 1} {
+					if y, err := cp.GetValueAtQuantile(q); err != nil || !seen[y] {
+						t.Fatalf("C12 %s: after Reweight(2^-1074) quantile %v is (%v, %v), not the value of a bin that still holds weight (%d bins in [%v,%v])", c, q, y, err, len(seen), lo, hi)
+					}
+				}
+				cl.labelIf(len(seen) < bins0(u), "partial-underflow-lost-bins")
+			}
 			cl.label("partial-underflow-probe")
 		}
 		bins := len(u.k.expectPos(c)) + len(u.k.expectNeg(c))
@@ -348,6 +370,15 @@ func TestC12(t *testing.T) {
 		}
 		cl.done(bins >= 2)
 	})
+}
+
+// bins0 is the number of bins (zero bucket included) of the sketch according to its model.
+func bins0(u *skUT) int {
+	n := len(u.k.expectPos(u.cfg)) + len(u.k.expectNeg(u.cfg))
+	if u.k.zero > 0 {
+		n++
+	}
+	return n
 }
 
 // checkCoherence applies the C12 oracle to a sketch with an exact model.
@@ -504,6 +535,22 @@ func TestC11_HugeTotal(t *testing.T) {
 			vals = append(vals, effective(c.m, v))
 			total += w
 		}
+		// dust: a few more values whose weight is half an ulp of the total (or less). The order in which a store
+		// visits its bins then decides how its total is rounded (a sparse store visits them in map order, which
+		// changes from one call to the next): every answer must still come from a side that holds something
+		dust := rapid.IntRange(0, 2).Draw(t, "dust") > 0
+		if dust {
+			w := math.Ldexp(1, int(math.Floor(math.Log2(total)))-53-rapid.IntRange(0, 1).Draw(t, "dustexp"))
+			for i, nd := 0, rapid.IntRange(2, 4).Draw(t, "ndust"); i < nd; i++ {
+				v, _, _ := d.value(t, prof)
+				if err := s.AddWithCount(v, w); err != nil {
+					t.Fatalf("C11 huge: AddWithCount(%v,%v): %v", v, w, err)
+				}
+				cl.logf("AddWithCount(%v,%v) (dust)", v, w)
+				vals = append(vals, effective(c.m, v))
+			}
+			cl.label("dust-below-half-ulp-of-total")
+		}
 		// scale the total to 2^e, e in [52, 90] (around and far above 2^53), in one or two steps
 		e := rapid.IntRange(52, 90).Draw(t, "exp")
 		k := e - int(math.Floor(math.Log2(total)))
@@ -530,7 +577,14 @@ func TestC11_HugeTotal(t *testing.T) {
 			hasNeg = hasNeg || v < 0
 		}
 		cl.labelIf(!(hasPos && hasNeg), "one-sided")
-		for _, q := range []float64{1, math.Nextafter(1, 0), 1 - 0x1p-40, 0.999, 0.75, 0.5, 0.25, 1e-3, 0x1p-60, 0} {
+		qs := []float64{1, math.Nextafter(1, 0), 1 - 0x1p-40, 0.999, 0.75, 0.5, 0.25, 1e-3, 0x1p-60, 0}
+		if dust {
+			// the same questions again and again: the answer may depend on the iteration order of the call
+			for i := 0; i < 40; i++ {
+				qs = append(qs, 1, math.Nextafter(1, 0), 0)
+			}
+		}
+		for _, q := range qs {
 			y, err := s.GetValueAtQuantile(q)
 			if err != nil || math.IsNaN(y) {
 				t.Fatalf("C11 huge %s (W=%v): quantile %v: %v, %v", c, W, q, y, err)
